@@ -548,6 +548,43 @@ def r6_protocol(ctx, sym, model):
                           "any feedback reaching this statement raises AttributeError")
 
 
+def r7_field_values_compare_by_content(ctx, sym):
+    ctx.rule('R7', "a suppression by fields matches a feedback when the field values are equal: for every @dataclass in "
+                   "pedal.core (the classes whose instances feedback fields hold, e.g. Location), every attribute its "
+                   "__init__ assigns is a declared field, or the class defines __eq__ itself - a dataclass-generated "
+                   "__eq__ compares the declared fields only, so with none declared every two instances are equal")
+    n = 0
+    for m in ctx.repo.modules.values():
+        if not (m.name == 'pedal.core' or m.name.startswith('pedal.core.')):
+            continue
+        for q, cls in m.classes.items():
+            decos = [dotted(d.func if isinstance(d, ast.Call) else d) for d in cls.decorator_list]
+            if not any(d in ('dataclass', 'dataclasses.dataclass') for d in decos):
+                continue
+            n += 1
+            eq_off = any(isinstance(d, ast.Call) and any(k.arg == 'eq' and isinstance(k.value, ast.Constant)
+                                                         and k.value.value is False for k in d.keywords)
+                         for d in cls.decorator_list)
+            declared = {st.target.id for st in cls.body if isinstance(st, ast.AnnAssign) and isinstance(st.target, ast.Name)}
+            own_eq = any(isinstance(st, ast.FunctionDef) and st.name == '__eq__' for st in cls.body)
+            init = next((st for st in cls.body if isinstance(st, ast.FunctionDef) and st.name == '__init__'), None)
+            assigned = set()
+            if init is not None:
+                for node in ast.walk(init):
+                    if isinstance(node, (ast.Assign, ast.AnnAssign, ast.AugAssign)):
+                        for t in (node.targets if isinstance(node, ast.Assign) else [node.target]):
+                            if isinstance(t, ast.Attribute) and isinstance(t.value, ast.Name) and t.value.id == 'self':
+                                assigned.add(t.attr)
+            ignored = sorted(assigned - declared)
+            ctx.check(own_eq or eq_off or not ignored, 'R7', 'dataclass-eq:%s.%s' % (m.name, q), m, cls,
+                      "%s is a @dataclass whose generated __eq__ compares only the declared fields %s and ignores the "
+                      "attributes %s its __init__ sets: any two instances are equal" % (
+                          q, sorted(declared) or 'none', ignored),
+                      "suppress('runtime', 'x', fields={'location': Location(3)}) also suppresses the feedback located "
+                      "on line 5: Location(3) == Location(5)")
+    ctx.floor('R7', 'dataclasses in pedal.core', n, 1)
+
+
 def run(ctx):
     sym = Symbols(ctx.repo)
     table = r1_rank_table(ctx, sym)
@@ -556,5 +593,6 @@ def run(ctx):
     model = Model(ctx, sym)
     r4_r6_merge_table(ctx, sym, model)
     r6_protocol(ctx, sym, model)
+    r7_field_values_compare_by_content(ctx, sym)
     ctx.assume("Feedback subclasses written by instructors keep the attribute contract of Feedback")
     ctx.assume("list.sort / sorted are stable (CPython guarantee)")
